@@ -21,13 +21,26 @@ def pack(bits):
     return out or [0]
 
 
-def sample(kind, msg, odd=False):
+def sample(kind, msg, odd=False, impolite=False):
+    """impolite: the caller first encodes the message once, damages the returned word in place (channel simulation),
+    extracts from the damaged word, damages what it extracted - and only then makes the calls that are recorded"""
     from bitarray import bitarray
     from okdmr.dmrlib.etsi.crc.crc8 import CRC8
     from okdmr.dmrlib.etsi.fec.five_bit_checksum import FiveBitChecksum
     from okdmr.dmrlib.etsi.fec.vbptc_128_72 import VBPTC12873
     from okdmr.dmrlib.etsi.fec.vbptc_32_11 import VBPTC3211
     from okdmr.dmrlib.etsi.fec.vbptc_68_28 import VBPTC6828
+    if impolite:
+        if kind == "128_72":
+            w0 = VBPTC12873.encode(msg.copy())
+            VBPTC12873.deinterleave_data_bits(w0, include_cs5=True).invert()
+        elif kind == "68_28":
+            w0 = VBPTC6828.encode(msg.copy())
+            VBPTC6828.deinterleave_data_bits(w0, include_crc8=True).invert()
+        else:
+            w0 = VBPTC3211.encode(msg.copy(), even_parity=not odd)
+            VBPTC3211.deinterleave_data_bits(w0).invert()
+        w0.invert()
     if kind == "128_72":
         cw = VBPTC12873.encode(msg.copy())
         dec = VBPTC12873.deinterleave_data_bits(cw, include_cs5=False)
@@ -72,11 +85,11 @@ def run(ctx):
     samples = []
     for m in range(1 << 11):
         for odd in (False, True):
-            samples.append(sample("32_11", int2ba(m, length=11), odd))
+            samples.append(sample("32_11", int2ba(m, length=11), odd, impolite=m % 3 == 0))
     for i in range(72):
         u = bitarray([0] * 72)
         u[i] = 1
-        samples.append(sample("128_72", u))
+        samples.append(sample("128_72", u, impolite=i % 2 == 0))
     seen = set()
     tries = 0
     while len(seen) < 31 and tries < 20000:
@@ -85,16 +98,16 @@ def run(ctx):
         cs = FiveBitChecksum.calculate(m.tobytes())
         if cs not in seen:
             seen.add(cs)
-            samples.append(sample("128_72", m))
+            samples.append(sample("128_72", m, impolite=len(seen) % 2 == 0))
     ctx.note("cs5_values_covered", len(seen))
     for i in range(28):
         u = bitarray([0] * 28)
         u[i] = 1
-        samples.append(sample("68_28", u))
+        samples.append(sample("68_28", u, impolite=i % 2 == 0))
     n = 400 if ctx.quick else 6000
     for _ in range(n):
-        samples.append(sample("128_72", bitarray([rng.getrandbits(1) for _ in range(72)])))
-        samples.append(sample("68_28", bitarray([rng.getrandbits(1) for _ in range(28)])))
+        samples.append(sample("128_72", bitarray([rng.getrandbits(1) for _ in range(72)]), impolite=bool(rng.getrandbits(1))))
+        samples.append(sample("68_28", bitarray([rng.getrandbits(1) for _ in range(28)]), impolite=bool(rng.getrandbits(1))))
     for s in samples:
         ctx.count(core.digest([s["kind"], s["odd"], s["msg"]]))
     data = {"h16": learn_hcols(Hamming16114, 16, 11), "h17": learn_hcols(Hamming17123, 17, 12), "samples": samples}
